@@ -529,6 +529,12 @@ def judge(sr, drv, inp, res):
     brief = dict(inp)
     st = res.get("status")
     sr.dist("%s.%s" % (fmt, st if st != "not-composable" else "not-composable." + res.get("why", "?")))
+    if fmt == "edif" and st == "not-composable":
+        # netlists outside the theorems' hypotheses never reach the model: count them as such
+        why = res.get("why", "?")
+        reason = "hfin:cyclic_dependencies" if why == "cyclic-dependencies" else "outside_quantifier:refused_compose"
+        for t in ("edifify_documented_only", "edifify_idem", "compose_repeatable"):
+            sr.dist("theorem_fragment:%s:out:%s" % (t, reason))
     if st == "hang":
         sr.dist("%s.case-timeout" % fmt)
         return
@@ -624,6 +630,8 @@ def judge(sr, drv, inp, res):
     for w in other_w:
         sr.dist("%s.warning.%s" % (fmt, w))
     # ---- correspondence with the Lean model ----
+    if fmt != "edif":
+        sr.dist("theorem_fragment:pure_writer_unchanged:in")           # rfl in the model; the snapshot oracle decides
     if fmt == "edif":
         ids = []
 
@@ -655,6 +663,14 @@ def judge(sr, drv, inp, res):
             if not m["second_identity"]:
                 sr.corr_mismatch("edifify_idem in the driver", brief, None, None)
             sr.dist("edif.model.%s" % ("agrees" if m["net"] == s1 else "differs"))
+            # reach of the headline theorems on this very netlist (counters only; no verdict uses them)
+            hyp = m.get("hyp", "unknown")
+            tag = "in" if hyp == "in" else "out:" + hyp
+            core = tag if hyp not in ("hfuelL", "hfuelD") else "in"   # the fuel bounds are only needed for repeatability
+            sr.dist("theorem_fragment:edifify_documented_only:" + core)
+            sr.dist("theorem_fragment:edifify_idem:" + tag)
+            sr.dist("theorem_fragment:compose_repeatable:" + tag)
+            sr.dist("theorem_fragment:edifify_keeps_existing:in")      # no hypothesis
         # the order the implementation chose satisfies the Spec
         order = [l["id"] for l in s1["libs"]]
         r = drv.ask({"fn": "topoOrder", "input": [l["id"] for l in s0["libs"]], "deps": res["depL"], "order": order})
